@@ -88,23 +88,14 @@ def run(ctx, w):
             continue
         n += 1
         if fn == rl:
-            # width-changed path must clear it
-            sets = [(pt, t) for f2, pt, p, t in w.assign_sites({fn}, lambda p: p == pw)]
-            good = False
-            for pt, t in sets:
-                gs = [(WD.strip_names(c), v) for c, v in w.guards_of(fn, pt[0])]
-                bc = ("load", ("arg1", S.active_buffer, S.buf_cols))
-                if t == ("const", False) and any(v is True and c[0] == "binop" and c[1] == "Ne" and {c[2], c[3]} == {cols_t, bc} for c, v in gs):
-                    # the test precedes the buffer resize (afterwards the widths are equal)
-                    good = all(not b.path_exists(r.point, pt) for r in rs)
-            ctx.check(good, "R4", fn, "the re-layout %s does not clear wrap-pending when the width changes (before the buffer adopts the new width): the cursor could stay parked at the old right edge" % fn,
-                      loc=w.fn_loc(fn), sample={"fn": fn, "clears_on_width_change": good})
+            relayout_clears_wrap(ctx, w, S, R, "R4")
             continue
         ok = pw in w.mustwrite.must(fn)
         ctx.check(ok, "R4", fn, "%s assigns the cursor column but does not settle wrap-pending on every path (col == cols <=> wrap pending would break)" % fn, loc=w.stmt_loc(fn, direct[0]),
                   sample={"fn": fn, "must_write": sorted(M.path_str(p) for p in w.mustwrite.must(fn))[:6]})
     ctx.floor("R4", 4, "cursor-column writers")
     c05.wrap_pending_rule(ctx, w, S, R)
+    row_units(ctx, w, S, R, "R10")
 
     # ---- R5 -----------------------------------------------------------------------------------------------
     ctx.rule("R5", "the dirty set is created and resized with self.rows only, and its resize sets the length unconditionally")
@@ -244,3 +235,129 @@ def witnesses(ctx, w):
             ctx.violation("R6w", "floor", "only %d witness doctests ran (12 expected); cargo said: %s" % (len(tests), r.stdout[-600:]))
     finally:
         shutil.rmtree(tmp, ignore_errors=True)
+
+
+def relayout_clears_wrap(ctx, w, S, R, rule):
+    """The re-layout (which also runs when a parked screen with a stale width comes back) clears wrap-pending
+    exactly on the path where the terminal's width differs from the buffer's, before the buffer adopts it."""
+    E = w.E
+    ctx.rule(rule, "the re-layout clears wrap-pending when the terminal width differs from the active buffer's width, tested before the buffer is resized (this also covers the lazily resized screen coming back)")
+    if len(S.relayout_fns) != 1:
+        ctx.missing_anchor(rule, "re-layout routine")
+        return
+    fn = next(iter(S.relayout_fns))
+    b = w.body(fn)
+    pw = ("arg1", R["pending_wrap"])
+    cols_t = ("load", ("arg1", R["cols"]))
+    rs = [cs for cs in E.call_sites(fn, S.buffer_resize_fn)]
+    sets = [(pt, t) for f2, pt, p, t in w.assign_sites({fn}, lambda p: p == pw)]
+    good = False
+    for pt, t in sets:
+        gs = [(WD.strip_names(c), v) for c, v in w.guards_of(fn, pt[0])]
+        bc = ("load", ("arg1", S.active_buffer, S.buf_cols))
+        if t == ("const", False) and any(v is True and c[0] == "binop" and c[1] == "Ne" and {c[2], c[3]} == {cols_t, bc} for c, v in gs):
+            # the test precedes the buffer resize (afterwards the widths are equal)
+            good = all(not b.path_exists(r.point, pt) for r in rs)
+    ctx.check(good, rule, fn, "the re-layout %s does not clear wrap-pending when the width changes (before the buffer adopts the new width): the cursor could stay parked at the old right edge" % fn,
+              loc=w.fn_loc(fn), sample={"fn": fn, "clears_on_width_change": good})
+
+
+def row_units(ctx, w, S, R, rule):
+    """Unit discipline: a ROW INDEX (cursor row, saved cursor row, margin, .1 of a visual position) is compared with
+    a ROW COUNT (rows of the terminal / of a buffer, the requested height, sums built on them) only as index < count
+    or index >= count.  `index <= count` treats the count as a valid index - the off-by-one that lets a row leave the screen."""
+    from rules import c01
+    E = w.E
+    ctx.rule(rule, "a row index is compared with a row count only as `index < count` / `index >= count` (never <=, >, ==): the count is not a valid index")
+    cur = R["cursor"]
+    # saved-context fields that hold a row: assigned from cursor.row somewhere
+    saved_rows = set()
+    for fn in w.bodies:
+        if S._impl_of(fn) != S.term_ty:
+            continue
+        for f2, pt, p, t in w.assign_sites({fn}, lambda p: len(p) == 3 and p[0] == "arg1" and p[1] in (R["saved_ctx"], R["parked_saved_ctx"])):
+            if WD.strip_names(t) == ("load", ("arg1", cur, "row")):
+                saved_rows.add(p[2])
+    # parameters that receive a row count: positions at which some caller passes one
+    cnt_params = {}
+    pos_params = {}
+
+    def is_cnt(fn, t, depth=0):
+        impl = S._impl_of(fn)
+        if t[0] == "load":
+            p = t[1]
+            if impl == S.term_ty and p in (("arg1", R["rows"]), ("arg1", S.active_buffer, S.buf_rows), ("arg1", S.parked_buffer, S.buf_rows)):
+                return True
+            if (impl == S.buffer_ty or fn.startswith("<" + S.buffer_ty)) and p == ("arg1", S.buf_rows):
+                return True
+            if len(p) == 1 and p[0] in cnt_params.get(fn, ()):
+                return True
+            return False
+        if depth > 6:
+            return False
+        if t[0] == "phi":
+            return any(is_cnt(fn, x, depth + 1) for x in t[1] if isinstance(x, tuple))
+        if t[0] == "binop" and t[1] == "Add":
+            return is_cnt(fn, t[2], depth + 1) or is_cnt(fn, t[3], depth + 1)
+        return False
+
+    def is_pos(fn, t, depth=0):
+        impl = S._impl_of(fn)
+        if t[0] == "load":
+            p = t[1]
+            if impl == S.term_ty and (p == ("arg1", cur, "row") or p in (("arg1", R["top_margin"]), ("arg1", R["bottom_margin"]))
+                                      or (len(p) == 3 and p[1] in (R["saved_ctx"], R["parked_saved_ctx"]) and p[2] in saved_rows)):
+                return True
+            if len(p) == 2 and p[1] == "1" and p[0] in pos_params.get(fn, ()):
+                return True
+            return False
+        if depth > 6:
+            return False
+        if t[0] == "binop" and t[1] == "Sub" and t[3] == ("const", 1) and is_cnt(fn, t[2], depth + 1):
+            return True                  # last index
+        return False
+    for fn, fo in w.facts.fns.items():
+        if fn in w.bodies:
+            pos_params[fn] = {"arg%d" % (i + 1) for i, a in enumerate(fo.get("inputs", [])) if a["s"] == "(usize, usize)"}
+    changed = True
+    rounds = 0
+    while changed and rounds < 4:
+        changed = False
+        rounds += 1
+        for fn in sorted(w.bodies):
+            T = w.terms(fn)
+            for cs in E.call_sites(fn):
+                if not cs.local or cs.callee not in w.bodies:
+                    continue
+                for i, a in enumerate(cs.term["args"]):
+                    t = WD.strip_names(T.operand(a, cs.point))
+                    if is_cnt(fn, t) and ("arg%d" % (i + 1)) not in cnt_params.setdefault(cs.callee, set()):
+                        ty = w.facts.fns[cs.callee]["inputs"][i]["s"] if i < len(w.facts.fns[cs.callee]["inputs"]) else ""
+                        if ty == "usize":
+                            cnt_params[cs.callee].add("arg%d" % (i + 1))
+                            changed = True
+    # the public resize entry receives the requested height
+    n = 0
+    reach = c01.api_reach(w)
+    for fn in sorted(reach):
+        b = w.body(fn)
+        T = w.terms(fn)
+        for bl in sorted(b.normal_blocks()):
+            for i, st in enumerate(b.blocks[bl]["stmts"]):
+                if st["k"] != "assign" or st["rv"]["k"] != "binop" or st["rv"]["op"] not in ("Lt", "Le", "Gt", "Ge", "Eq", "Ne"):
+                    continue
+                l = WD.strip_names(T.operand(st["rv"]["l"], (bl, i)))
+                r = WD.strip_names(T.operand(st["rv"]["r"], (bl, i)))
+                op = st["rv"]["op"]
+                if is_pos(fn, l) and is_cnt(fn, r):
+                    ok = op in ("Lt", "Ge")
+                elif is_cnt(fn, l) and is_pos(fn, r):
+                    ok = op in ("Gt", "Le")
+                    l, r = r, l
+                else:
+                    continue
+                n += 1
+                ctx.check(ok, rule, "%s:%s" % (fn, shared.site_key(w, fn, (bl, i))),
+                          "%s compares the row index %s with the row count %s using %s: a row equal to the count is already outside (rows are 0..count-1), so the boundary case is treated as inside" %
+                          (fn, w.tstr(fn, l)[:50], w.tstr(fn, r)[:50], op), loc=w.stmt_loc(fn, (bl, i)), sample={"fn": fn, "index": w.tstr(fn, l)[:50], "count": w.tstr(fn, r)[:50], "op": op})
+    ctx.floor(rule, 2, "row index / row count comparisons")
